@@ -209,6 +209,11 @@ func (ff *FuncFacts) OriginsT(v ssa.Value, tr Transparent) []Origin {
 					return
 				}
 			}
+			if f, ok := ff.P.PBGetterField(x.Common()); ok {
+				// a generated getter is the field it returns: m.GetX() ≡ m.X
+				walk(x.Common().Args[0], "."+f+path, depth+1)
+				return
+			}
 			emit(Origin{"call", ff.P.CalleeKey(x.Common()), path, x})
 		case *ssa.BinOp:
 			emit(Origin{"expr", x.Op.String(), path, x})
@@ -289,4 +294,36 @@ func (ff *FuncFacts) AllOrigins(v ssa.Value, tr Transparent, pred func(Origin) b
 		}
 	}
 	return true
+}
+
+// PBGetterField recognises a call of a protobuf-generated getter `func (m *T) GetX() F`
+// (declared in a .pb.go file, no arguments, T has a field X of the returned type) and
+// returns the field name: for every analysis the call is the field read m.X (the nil
+// receiver default is the zero value, which a nil dereference would never deliver).
+func (P *Program) PBGetterField(cc *ssa.CallCommon) (string, bool) {
+	if cc.IsInvoke() || len(cc.Args) != 1 {
+		return "", false
+	}
+	sc := cc.StaticCallee()
+	if sc == nil || sc.Signature.Recv() == nil || !strings.HasPrefix(sc.Name(), "Get") || !InModule(sc) {
+		return "", false
+	}
+	if !strings.HasSuffix(P.File(sc.Pos()), ".pb.go") {
+		return "", false
+	}
+	name := strings.TrimPrefix(sc.Name(), "Get")
+	n := AsNamed(sc.Signature.Recv().Type())
+	if n == nil {
+		return "", false
+	}
+	st, ok := n.Underlying().(*types.Struct)
+	if !ok || sc.Signature.Results().Len() != 1 {
+		return "", false
+	}
+	for i := 0; i < st.NumFields(); i++ {
+		if st.Field(i).Name() == name && types.Identical(st.Field(i).Type(), sc.Signature.Results().At(0).Type()) {
+			return name, true
+		}
+	}
+	return "", false
 }
